@@ -22,6 +22,7 @@ REGISTRY = {
     "C13": "history",
     "C14": "labels",
     "C15": "config",
+    "C16": "dataset",
     "C17": "timeline",
     "C18": "transforms",
     "C19": "analyzer",
